@@ -57,6 +57,12 @@ func newC19World(r *rand.Rand) *c19World {
 		w.kmacOut = append(w.kmacOut, w.kmac.ComputeHash(m))
 	}
 	w.xof = crypto.NewExpandMsgXOFKMAC128("c19")
+	// both shared hashers hold streamed data that was written and not yet finalised: read-only use by
+	// ComputeHash / Sign / Verify must leave that pending stream alone (the fingerprint's SumHash sees it)
+	defer func() {
+		_, _ = w.kmac.Write([]byte("pending data streamed into the shared KMAC hasher"))
+		_, _ = w.xof.Write([]byte("pending data streamed into the shared expand-message hasher"))
+	}()
 	for k := 0; k < 5; k++ {
 		sk := skFromInt(randScalar(r))
 		w.sks = append(w.sks, sk)
